@@ -92,6 +92,36 @@ pub fn interchange(out: &mut Out, r: &mut Rng, s: &Suite, tag: &str) {
         Ok(ok) => verdict(out, ok, "c14interchange", &format!("relin-{}", tag), "relinearization with restored seeded keys differs from expanded keys".into()),
         Err(_) => out.raw(&format!("!NOTE interchange test refused for {}", tag)),
     }
+    // Galois key sets are SPARSE containers (slot (g-1)/2 of 2N-1.. filled for the default elements only): the set restored from bytes, the
+    // set expanded in memory and the set generated without seed compression must be the same object, and usable for every element
+    let n = s.ci.levels[0].n;
+    let res = std::panic::catch_unwind(std::panic::AssertUnwindSafe(|| {
+        let gk = s.keygen.create_galois_keys(true);
+        let mut b = vec![]; gk.serialize(ctx, &mut b).unwrap();
+        let restored = GaloisKeys::deserialize(ctx, &mut b.as_slice()).unwrap();
+        let expanded = gk.clone().expand_seed(ctx);
+        let same = d_ks(restored.as_kswitch_keys(), &x_ct) == d_ks(expanded.as_kswitch_keys(), &x_ct);
+        let ev = Evaluator::new(s.ci.ctx.clone());
+        let lv = data_levels(&s.ci)[0];
+        let c2 = rand_ct(r, &s.ci, lv, 2, s.ci.scheme == SchemeType::BGV);
+        let mut why = vec![];
+        if !same { why.push("the set expanded in memory differs from the set restored from its bytes".to_string()); }
+        let mut elts = vec![2 * n - 1, 3]; { let mut g = 3usize; for _ in 0..3 { g = (g * g) % (2 * n); if g != 1 && !elts.contains(&g) { elts.push(g); } } }
+        for g in elts {
+            if !restored.has_key(g) { continue; }
+            let a = std::panic::catch_unwind(std::panic::AssertUnwindSafe(|| ev.apply_galois_new(&c2, g, &restored)));
+            let e = std::panic::catch_unwind(std::panic::AssertUnwindSafe(|| ev.apply_galois_new(&c2, g, &expanded)));
+            match (a, e) { (Ok(a), Ok(e)) => { if x_ct(&a) != x_ct(&e) { why.push(format!("apply_galois({}) with the expanded set differs from the restored set", g)); } }
+                           (Ok(_), Err(_)) => why.push(format!("apply_galois({}) refuses the set expanded in memory", g)),
+                           (Err(_), Ok(_)) => why.push(format!("apply_galois({}) refuses the set restored from bytes", g)),
+                           _ => {} }
+        }
+        why
+    }));
+    match res {
+        Ok(why) => verdict(out, why.is_empty(), "c14interchange", &format!("galois-{}", tag), why.join("; ")),
+        Err(_) => out.raw(&format!("!NOTE galois interchange test refused for {}", tag)),
+    }
 }
 
 pub fn run(out: &mut Out, thorough: bool, seed: u64, extra: &[String]) {
@@ -111,6 +141,11 @@ pub fn run(out: &mut Out, thorough: bool, seed: u64, extra: &[String]) {
         let tag = format!("f{}", fi);
         concat(out, &mut r, &objs, &tag);
         interchange(out, &mut r, &s, &tag);
+    }
+    // key sets with key switching in use (no special prime for encryption): seeded relinearisation / Galois key sets are interchangeable
+    // with their expanded forms — the families above mostly encrypt with the special prime, where the context reports no key switching
+    for (xi, (scheme, n, bits, t)) in [(SchemeType::BFV, 8usize, vec![24usize, 25, 33, 32], 97u64), (SchemeType::BGV, 16, vec![40, 41, 49], 17), (SchemeType::BFV, 32, vec![30, 40, 40], 257), (SchemeType::BGV, 64, vec![36, 36, 45], 769)].into_iter().enumerate() {
+        if let Some(s) = suite(scheme, n, &bits, t, false) { interchange(out, &mut r, &s, &format!("x{}", xi)); }
     }
     if let Some((rctx, cis)) = rnsp_suite(8, &[20, 21], &[17, 97]) {
         for rep in 0..3 {
